@@ -126,7 +126,7 @@ fn contains_reserved(j: &J) -> bool {
 fn documents(thorough: bool) -> Vec<String> {
     let mut docs: Vec<String> = vec![];
     let number_texts = [
-        "0", "-0.0", "1", "-1", "0.1", "1E2", "1e-2", "1.5e+3", "123456789012345678901234567890", "4.35", "0.30000000000000004", "1.0000000000000002",
+        "0", "-0.0", "-0", "-0e0", "0e0", "0.0e5", "1", "-1", "0.1", "1E2", "1e-2", "1.5e+3", "123456789012345678901234567890", "4.35", "0.30000000000000004", "1.0000000000000002",
         "0.1000000000000000055511151231257827021181583404541015625", "5e-324", "2.2250738585072011e-308", "1.7976931348623157e308", "9007199254740993",
         "18446744073709551615", "18446744073709551616", "-9223372036854775808", "-9223372036854775809", "8.41e21", "1e23", "0.000001", "100000000000000000000",
         "2.4703282292062328e-324", "1.00000000000000011102230246251565404236316680908203125", "1e400", "-1e400", "1e-400",
@@ -143,6 +143,15 @@ fn documents(thorough: bool) -> Vec<String> {
         "\"\"", "\"a\"", "\"\\u00e9\"", "\"\\ud83d\\ude00\"", "\"\\u0000\"", "\"\\n\\t\\r\\b\\f\\\\\\/\\\"\"", "\"e\\u0301\"", "\"\u{e9}\"", "\"\u{1f600}\"", "\"\\u2028\"", "\"\\uffff\"",
         "\"a b\"", "\"//not a comment\"", "\"#k\"", "\"{}\"",
     ];
+    // member names that a JSON library may reserve for its own extended number / raw-value forms are
+    // ordinary data here
+    for k in ["$serde_json::private::Number", "$serde_json::private::RawValue", "$numberLong", "$date", "__proto__"] {
+        for v in ["\"12\"", "\"-0\"", "\"abc\"", "12", "[1]", "\"[1, 2]\"", "null"] {
+            docs.push(format!("{{\"x\": {{\"{}\": {}}}}}", k, v));
+            docs.push(format!("{{\"x\": [{{\"{}\": {}, \"b\": 1}}]}}", k, v));
+            docs.push(format!("{{\"{}\": {}}}", k, v));
+        }
+    }
     for s in string_texts {
         docs.push(format!("{{\"x\": {}}}", s));
         docs.push(format!("{{\"x\": {{{}: {}}}}}", s, s));
